@@ -33,6 +33,11 @@ func probeDesign() *m.Design {
 		Attr:  rt.Obj(rt.Fld("id", m.Prim(m.Boolean), true), rt.Fld("c", m.UserRef("Node"), false)),
 		Views: []*m.View{{Name: "default", Fields: []m.ViewField{{Name: "id"}, {Name: "c"}}}}})
 	add("recur", m.UserRef("Node"), &m.Response{Status: 200, Headers: []m.Mapping{{Attr: "id", Wire: "X-A"}}})
+	un := func(k1, k2 m.Kind) *m.Attr {
+		return &m.Attr{Type: &m.Type{Kind: m.Union, Fields: []*m.Field{rt.Fld("alt_a", m.Prim(k1), false), rt.Fld("alt_b", m.Prim(k2), false)}}}
+	}
+	s.Methods = append(s.Methods, &m.Method{Name: "unions", Payload: rt.Obj(rt.Fld("items", un(m.Boolean, m.String), false)), Result: rt.Obj(rt.Fld("items", un(m.Int, m.Float64), false)),
+		HTTP: &m.HTTPEndpoint{Routes: []m.Route{{Verb: "POST", Path: "/unions"}}}})
 	d.Services = []*m.Service{s}
 	return d
 }
@@ -55,6 +60,15 @@ func TestProbes(t *testing.T) {
 	rt.Probe("C03-response-body-attr-optional-unset-server-panic", func() (bool, string) {
 		o := call("bodyobj", value.Object())
 		return o.ServerPanic != "", "result {} with Body(\"t\"): " + firstLines(o.ServerPanic, 1)
+	})
+	rt.Probe("C03-unions-with-the-same-name-share-alternative-types", func() (bool, string) {
+		// the result's union declares alt_a as Int; the generated wrapper type is the payload union's (Boolean)
+		o, err := h.Do(&harness.Case{Op: "call", Svc: "probe", Method: "unions", HasPayload: true, Payload: value.Object(),
+			Stub: harness.StubSpec{HasResult: true, Result: value.Object(value.Field{N: "items", V: value.V{K: "union", S: "alt_a", A: []value.V{value.Int(7)}}})}})
+		if err != nil {
+			return strings.Contains(err.Error(), "cannot use"), "result {items: alt_a(7)} (Int alternative): " + err.Error()
+		}
+		return !strings.Contains(o.Result.Canon(), "7"), "result {items: alt_a(7)}: client got " + o.Result.Canon() + errText(o)
 	})
 	rt.Probe("C03-response-header-array-not-split", func() (bool, string) {
 		o := call("hdrarray", value.Object(value.Field{N: "l", V: value.Array(value.Int(1), value.Int(2))}))
